@@ -130,7 +130,7 @@ def check_etcd(prop, tier, seed):
 
 ROLES = dict(Readers={"r1", "r2"}, MaxCommits=2, SingleFlight=True, SetRaises=False, GenHist=False)
 T_MON["C18"] = ["M_LeaderServes", "M_FollowerNeverWrites", "M_FollowerNeverStreamsOwnHistory", "M_FollowerForwards", "M_FollowerRejectsUnavailable",
-                "M_FollowerReadsAtLeaderRevision", "M_FollowerReadFailsWithoutLeader", "M_ProtocolReadServed"]
+                "M_FollowerReadsAtLeaderRevision", "M_FollowerReadFailsWithoutLeader", "M_ProtocolReadServed", "M_FollowerAdoptsFetched"]
 T_MODULE["C18"] = "TraceRoles.tla"
 
 
@@ -188,13 +188,16 @@ def check_roles(prop, tier, seed):
                                   predicted_stale=sum(1 for b in behs if json.loads(b)["stale"]), notes=(rep.get("mismatch_notes") or [])[:2]))
         cov["samples"].append(json.loads(behs[0]))
         log("syncrun: %d protocol behaviours, %d executed on the real syncer" % (rep.get("behaviours", 0), rep.get("agreed", 0)))
+        not_exec = None
         if rep.get("obs_mismatch", 0) > rep.get("behaviours", 0) // 10:
-            raise Undecided("more than 10%% of the protocol behaviours could not be executed on the real syncer: %s" % (rep.get("mismatch_notes") or [])[:2])
+            not_exec = "more than 10%% of the protocol behaviours could not be executed on the real syncer: %s" % (rep.get("mismatch_notes") or [])[:2]
         allt = traces + ptraces
         ntr, v = validate_all(work, allt, T_MON[prop], module="TraceRoles.tla", chunks=4)
         cov["traces_validated_against_impl"] = ntr
         if v:
             violations += known_or_violation(prop, seed, v)
+        elif not_exec:
+            raise Undecided(not_exec)
         else:
             for mon in ("M_ReadNotStaleSharedFetch", "M_ReadNotStaleLoweredRevision"):
                 _, vk = validate_all(work, ptraces, [mon], module="TraceRoles.tla", chunks=4)
